@@ -5,7 +5,7 @@ use crate::ensure;
 use crate::gen::pinput::*;
 use crate::props::parsers::*;
 use crate::refmodel::sml::*;
-use crate::util::{hex_short, Kv};
+use crate::util::{clip, hex_short, Kv};
 use proptest::prelude::*;
 
 pub struct C04;
@@ -21,9 +21,9 @@ pub fn eval_bytes(x: &[u8], how: &str, obs: &mut Obs) -> Result<(), Fail> {
             ensure!(
                 c.as_ref().ok() == Some(&file),
                 if c.is_err() { "well-formed-input-rejected" } else { "parsed-value-differs-from-grammar" },
-                "the grammar accepts the input, complete::parse returns {:?}\nindependent reading: {:?}\ninput ({}; {} bytes) = {}",
-                c,
-                file,
+                "the grammar accepts the input, complete::parse returns {}\nindependent reading: {}\ninput ({}; {} bytes) = {}",
+                clip(format!("{:?}", c), 700),
+                clip(format!("{:?}", file), 700),
                 how,
                 x.len(),
                 hex_short(x, 200)
@@ -44,11 +44,11 @@ pub fn eval_bytes(x: &[u8], how: &str, obs: &mut Obs) -> Result<(), Fail> {
             ensure!(
                 c.is_err(),
                 format!("malformed-input-accepted:{}", rej.kind.label()),
-                "the grammar rejects the input ({} at offset {}: {}), but complete::parse returns data:\n  {:?}\ninput ({}; {} bytes) = {}",
+                "the grammar rejects the input ({} at offset {}: {}), but complete::parse returns data:\n  {}\ninput ({}; {} bytes) = {}",
                 rej.kind.label(),
                 rej.at,
                 rej.what,
-                c,
+                clip(format!("{:?}", c), 700),
                 how,
                 x.len(),
                 hex_short(x, 200)
